@@ -233,13 +233,26 @@ impl Serialize for Dyn {
             Dyn::CollectStr(x) => s.collect_str(x),
             Dyn::CollectChars(x, mode) => s.collect_str(&CharsDisplay(x, *mode)),
             Dyn::Bytes(x) => s.serialize_bytes(x),
-            Dyn::Seq(v) => {
-                let mut q = s.serialize_seq(Some(v.len()))?;
-                for x in v {
-                    q.serialize_element(x)?;
+            // the same sequence is announced in different ways (exact length, no length, serde's
+            // collect_seq with an exact and with a zero lower-bound size hint)
+            Dyn::Seq(v) => match v.len() % 4 {
+                0 => {
+                    let mut q = s.serialize_seq(Some(v.len()))?;
+                    for x in v {
+                        q.serialize_element(x)?;
+                    }
+                    q.end()
                 }
-                q.end()
-            }
+                1 => {
+                    let mut q = s.serialize_seq(None)?;
+                    for x in v {
+                        q.serialize_element(x)?;
+                    }
+                    q.end()
+                }
+                2 => s.collect_seq(v.iter()),
+                _ => s.collect_seq(v.iter().filter(|_| true)),
+            },
             Dyn::Tuple(v) => {
                 let mut q = s.serialize_tuple(v.len())?;
                 for x in v {
@@ -254,13 +267,25 @@ impl Serialize for Dyn {
                 }
                 q.end()
             }
-            Dyn::Map(v) => {
-                let mut q = s.serialize_map(Some(v.len()))?;
-                for (k, x) in v {
-                    q.serialize_entry(k, x)?;
+            Dyn::Map(v) => match v.len() % 4 {
+                0 => {
+                    let mut q = s.serialize_map(Some(v.len()))?;
+                    for (k, x) in v {
+                        q.serialize_entry(k, x)?;
+                    }
+                    q.end()
                 }
-                q.end()
-            }
+                1 => {
+                    let mut q = s.serialize_map(None)?;
+                    for (k, x) in v {
+                        q.serialize_key(k)?;
+                        q.serialize_value(x)?;
+                    }
+                    q.end()
+                }
+                2 => s.collect_map(v.iter().map(|(k, x)| (k, x))),
+                _ => s.collect_map(v.iter().filter(|_| true).map(|(k, x)| (k, x))),
+            },
             Dyn::Struct(v) => {
                 let mut q = s.serialize_struct("S", v.len())?;
                 for (k, x) in v {
